@@ -1,7 +1,11 @@
 CONSTANTS
-  Shapes <- Shapes22
   ESet <- One
-  RSet <- One
+  Shapes1 <- Shapes22
+  Shapes2 <- Shapes22
+  Shapes3 <- Shapes22
+  RSet1 <- One
+  RSet2 <- One
+  RSet3 <- One
   KeyMode = "after"
   WalkMode = "reverse"
 SPECIFICATION Spec
